@@ -8,15 +8,15 @@ open Rx Rx.Gen.Contains
 def absContains (g : ContainsObserver) : St1 := .contains g.target g.observer.isSome
 
 theorem tie_Contains_next (g : ContainsObserver) (v : Val) :
-    (ContainsObserver.next g v).map (fun r => (absContains r.1, r.2)) = some (St1.onNext (absContains g) v) := by
+    (ContainsObserver.next g v).map (fun r => (absContains r.1, r.2)) = some (Rs.lift (St1.onNext (absContains g) v)) := by
   rcases g with ⟨_ | _, _⟩ <;> rs_tie [ContainsObserver.next, absContains, St1.onNext]
 
 theorem tie_Contains_error (g : ContainsObserver) (e : Err) :
-    (ContainsObserver.error g e).map (fun r => r.2) = some (St1.onError' (absContains g) e).2 := by
+    (ContainsObserver.error g e).map (fun r => r.2) = some ((St1.onError' (absContains g) e).2.map Rs.Ev.n) := by
   rcases g with ⟨_ | _, _⟩ <;> rs_tie [ContainsObserver.error, absContains, St1.onError']
 
 theorem tie_Contains_complete (g : ContainsObserver) :
-    (ContainsObserver.complete g).map (fun r => r.2) = some (St1.onComplete' (absContains g)).2 := by
+    (ContainsObserver.complete g).map (fun r => r.2) = some ((St1.onComplete' (absContains g)).2.map Rs.Ev.n) := by
   rcases g with ⟨_ | _, _⟩ <;> rs_tie [ContainsObserver.complete, absContains, St1.onComplete']
 
 
